@@ -71,6 +71,9 @@ pub static SYS_EMPTY_PAGES: std::sync::atomic::AtomicBool = std::sync::atomic::A
 /// the driver's schema-agreement probe (`SELECT schema_version FROM system.local WHERE key='local'`) goes to the scenario handler
 /// instead of being answered from the system tables (the control connection's own, wider queries are unaffected)
 pub static SCHEMA_PROBE_TO_HANDLER: std::sync::atomic::AtomicBool = std::sync::atomic::AtomicBool::new(false);
+/// bit i set = node i of the configuration is not (or no longer) a member: it is left out of every `system.peers` answer
+/// (its slot, address and listener index stay, so that it can join again)
+pub static HIDDEN_NODES: std::sync::atomic::AtomicU32 = std::sync::atomic::AtomicU32::new(0);
 /// index of a node that currently accepts no NEW connections (they are closed at once; established ones live on), or -1
 pub static REFUSE_NODE: std::sync::atomic::AtomicI32 = std::sync::atomic::AtomicI32::new(-1);
 
